@@ -433,6 +433,58 @@ public:
 		return false;
 	}
 
+#ifdef CPPCMS_VERIF
+	void verif_dump(verif_cache_dump_result &out)
+	{
+		wrlock_guard lock(*access_lock);
+		lock_guard lock2(*lru_mutex);
+		out.lru_order.clear();
+		out.inconsistency.clear();
+		out.size = size;
+		out.triggers_count = triggers_count;
+		out.limit = limit;
+		out.process_shared = Setup::process_shared;
+		if(primary.size()!=size) out.inconsistency += "primary.size!=size;";
+		if(lru.size()!=size) out.inconsistency += "lru.size!=size;";
+		if(timeout.size()!=size) out.inconsistency += "timeout.size!=size;";
+		size_t links = 0;
+		for(lru_ptr l=lru.begin();l!=lru.end();++l) {
+			pointer p = *l;
+			if(p->second.lru != l) out.inconsistency += "entry.lru does not point back;";
+			if(p->second.timeout->second != p) out.inconsistency += "entry.timeout does not point back;";
+			if(primary.find(p->first)!=p) out.inconsistency += "lru entry not found in primary;";
+			verif_cache_entry e;
+			e.key = to_std(p->first);
+			e.value = to_std(p->second.data);
+			e.deadline = p->second.timeout->first;
+			e.generation = p->second.generation;
+			typename triggers_list_type::iterator tp;
+			for(tp=p->second.triggers.begin();tp!=p->second.triggers.end();++tp) {
+				e.triggers.push_back(to_std(tp->first->first));
+				if(*(tp->second) != p) out.inconsistency += "trigger link does not point back;";
+				if(triggers.find(tp->first->first)!=tp->first) out.inconsistency += "trigger iterator stale;";
+				links++;
+			}
+			out.lru_order.push_back(e);
+		}
+		size_t list_links = 0;
+		for(triggers_ptr t=triggers.begin();t!=triggers.end();++t) {
+			if(t->second.empty()) out.inconsistency += "empty trigger list;";
+			list_links += t->second.size();
+		}
+		if(links!=triggers_count) out.inconsistency += "entry trigger links!=triggers_count;";
+		if(list_links!=triggers_count) out.inconsistency += "trigger list links!=triggers_count;";
+		size_t tcount = 0;
+		time_t prev = 0;
+		for(timeout_ptr t=timeout.begin();t!=timeout.end();++t,++tcount) {
+			if(tcount && t->first < prev) out.inconsistency += "timeout index unordered;";
+			prev = t->first;
+		}
+		verif_fill_memory(out);
+	}
+	void verif_fill_memory(verif_cache_dump_result &out);
+#endif
+
 	void *operator new(size_t /*n*/) 
 	{
 		return this_allocator().allocate(1);
@@ -445,6 +497,37 @@ public:
 
 }; // mem cache
 
+
+#ifdef CPPCMS_VERIF
+template<>
+void mem_cache<thread_settings>::verif_fill_memory(verif_cache_dump_result &out)
+{
+	out.shm_free = out.shm_max_chunk = out.shm_size = -1;
+}
+#if !defined(CPPCMS_NO_PREFOK_CACHE)
+template<>
+void mem_cache<process_settings>::verif_fill_memory(verif_cache_dump_result &out)
+{
+	out.shm_free = process_settings::process_memory->available();
+	out.shm_max_chunk = process_settings::process_memory->max_available();
+	out.shm_size = process_settings::process_memory->size();
+}
+#endif
+bool verif_cache_dump(base_cache *c,verif_cache_dump_result &out)
+{
+	if(mem_cache<thread_settings> *t = dynamic_cast<mem_cache<thread_settings> *>(c)) {
+		t->verif_dump(out);
+		return true;
+	}
+#if !defined(CPPCMS_NO_PREFOK_CACHE)
+	if(mem_cache<process_settings> *p = dynamic_cast<mem_cache<process_settings> *>(c)) {
+		p->verif_dump(out);
+		return true;
+	}
+#endif
+	return false;
+}
+#endif
 
 booster::intrusive_ptr<base_cache> thread_cache_factory(unsigned items)
 {
